@@ -33,6 +33,18 @@ CHECKS = {
         design_ref="DESIGN.md section 4, C14",
         note=TB_B,
     ),
+    "C03": dict(
+        category="model_checking",
+        technique="dynamic symbolic execution of the real Consumer commit path with z3: symbolic offsets and coordinator store, symbolic crash point, exhaustive schedules of processor/commit/timer events within bounds",
+        text="Bounded symbolic model checking of the real Consumer's commit machinery against a symbolic log and a coordinator offset store. "
+             "Processor outcomes (ok / raise / async fail / pending), manual commits, auto-commit by count and by timer, commit replies "
+             "(ack, retriable, applied-but-reply-lost, illegal generation, non-Kafka), stop/shutdown and a symbolic crash point followed by a "
+             "restart from the committed offset are explored exhaustively up to the script bound; the monitors (commit value = last processed at "
+             "issue, commit never beyond the contiguous successfully-processed prefix, one commit outstanding, last-committed only acked/reported "
+             "values, resume at committed+1) are solver queries over symbolic offsets.",
+        design_ref="DESIGN.md section 4, C03",
+        note=TB_B,
+    ),
 }
 
 NOT_YET = "check not built yet in this session; see DESIGN.md section 4 for the planned solver-based harness"
